@@ -153,6 +153,9 @@ type TreeCfg struct {
 	Strs []string
 	// PList is the chance that a container is a list.
 	PList float64
+	// Safe restricts scalars to values every format decodes to the same Go
+	// value (small ints, float32-exact floats).
+	Safe bool
 	// WideP is the chance that a map gets 9..12 keys (Go switches map
 	// representation above 8 entries).
 	WideP float64
@@ -171,8 +174,14 @@ func DefaultTreeCfg() TreeCfg {
 func (c TreeCfg) Scalar(r *Rand) any {
 	switch r.Intn(10) {
 	case 0, 1, 2:
+		if c.Safe {
+			return PickAny(r, []any{0, 1, 2, 3, -1, 7, 42})
+		}
 		return PickAny(r, []any{0, 1, 2, 3, -1, 7, 42, 2147483648, 9007199254740993})
 	case 3:
+		if c.Safe {
+			return PickAny(r, []any{1.5, 0.25, -2.25})
+		}
 		return PickAny(r, []any{1.5, 0.25, -2.25, 1e21, 3.0})
 	case 4:
 		return r.Chance(0.5)
